@@ -3,6 +3,7 @@ import PromProofs.GoHeap
 import PromProofs.Merge
 import PromProofs.MergeTotal
 import PromProofs.MergeSeek
+import PromProofs.MergeSets
 /-
   C19 — Merging series sets de-duplicates without losing data.
   Property theorems only; helper lemmas live in PromProofs/GoHeap.lean and PromProofs/Merge.lean.
@@ -192,6 +193,38 @@ def merge_sets_sorted_unique_full : Prop :=
       (MSet.new (·.1) (sets.zipIdx.map fun (s, i) => SetIt.ofList i s) 0) []).1
     (out.map fun ss => (ss.head?.map (·.1)).getD []).Pairwise (fun a b => Labels.compare a b = .lt) ∧
     ∀ l, (∃ ss ∈ out, ∃ x ∈ ss, x.1 = l) ↔ ∃ s ∈ sets, ∃ x ∈ s, x.1 = l
+
+/-- `merge_sets_sorted_unique_full` holds.  Proved at the level of series (PromProofs/MergeSets.lean,
+    `merge_sets_spec`, for any series type): the groups handed to the vertical merge come out in strictly
+    increasing `labels.Compare` order, each group is non-empty and carries ONE label set, and the groups
+    together contain exactly the input series (so also: every series with that label set is in the group). -/
+theorem merge_sets_sorted_unique : merge_sets_sorted_unique_full := by
+  intro sets hs
+  obtain ⟨h1, _, h3⟩ := merge_sets_spec (σ := Labels × Nat) (·.1) sets hs
+  refine ⟨h1, ?_⟩
+  intro l
+  constructor
+  · rintro ⟨ss, hss, x, hx, rfl⟩
+    obtain ⟨s, hs', hxs⟩ := List.mem_flatten.1 ((h3 x).1 ⟨ss, hss, hx⟩)
+    exact ⟨s, hs', x, hxs, rfl⟩
+  · rintro ⟨s, hs', x, hx, rfl⟩
+    obtain ⟨g, hg, hxg⟩ := (h3 x).2 (List.mem_flatten.2 ⟨s, hs', hx⟩)
+    exact ⟨g, hg, x, hxg, rfl⟩
+
+/-- series-level form of the same fact: every group is non-empty, carries one label set, and the groups
+    partition the input series -/
+theorem merge_sets_groups (sets : List (List (Labels × Nat)))
+    (hs : ∀ s ∈ sets, s.Pairwise fun a b => Labels.compare a.1 b.1 = .lt) :
+    let out := (MSet.drainAux (·.1) (sets.flatten.length + 1)
+      (MSet.new (·.1) (sets.zipIdx.map fun (s, i) => SetIt.ofList i s) 0) []).1
+    (∀ g ∈ out, g ≠ [] ∧ ∀ x ∈ g, x.1 = (g.head?.map (·.1)).getD []) ∧
+      ∀ x, (∃ g ∈ out, x ∈ g) ↔ ∃ s ∈ sets, x ∈ s := by
+  obtain ⟨_, h2, h3⟩ := merge_sets_spec (σ := Labels × Nat) (·.1) sets hs
+  exact ⟨h2, fun x => by rw [h3 x, List.mem_flatten]⟩
+
+example : (MSet.drainAux (σ := Labels × Nat) (·.1) 5 (MSet.new (·.1)
+      ([[([("a", "1")], 0), ([("a", "2")], 1)], [([("a", "1")], 2)], []].zipIdx.map fun (s, i) => SetIt.ofList i s) 0) []).1
+    = [[([("a", "1")], 0), ([("a", "1")], 2)], [([("a", "2")], 1)]] := by decide
 
 /-- compacted chunks are ordered and disjoint, hold the chain merge of all input samples, and a chunk
     overlapped only by identical copies comes out once, unchanged -/
